@@ -2,6 +2,7 @@ package main
 
 import (
 	"fmt"
+	"math/big"
 	"os"
 	"time"
 	"strings"
@@ -442,6 +443,37 @@ func genRateFinite(r *hx.RNG, where int) []string {
 	return toks
 }
 
+// boundary magnitudes of every number that enters the shaping decision
+var bigStarts = []string{"0", "1000", "2147483647", "2147483648", "3000000000", "4294967295", "4294967296",
+	"1099511627776", "4611686018427387904", "9223372036854774000"}
+
+// genIntegrationBig: a real 206 through proxy.go whose Content-Range start (and with it
+// the action offsets and throttle bounds of the shape) has a boundary magnitude; total
+// length a number or "*"; malformed Content-Range values.
+func genIntegrationBig(r *hx.RNG, k int) []string {
+	st := bigStarts[k%len(bigStarts)]
+	base, _ := new(big.Int).SetString(st, 10)
+	off := func(d int) string { return new(big.Int).Add(base, big.NewInt(int64(d))).String() }
+	toks := []string{"I", fmt.Sprintf("S:%s:0", hx.HexS(rxA)),
+		fmt.Sprintf("T:%s:%d", hx.HexS(off(10)+"-"+off(300)), 3000000),
+		fmt.Sprintf("H:%s:2:1", off(40+r.Intn(40))),
+		fmt.Sprintf("C:%s:1", off(100+r.Intn(200)))}
+	url := fmt.Sprintf("http://example/a%d", r.Intn(100))
+	rest := []string{"|", "u:" + hx.HexS(url), "rs:" + st, "len:500", fmt.Sprintf("b:%d", r.Intn(1000000)), "ch:0", "virt:1"}
+	switch x := r.Intn(10); {
+	case x < 2:
+		rest = append(rest, "tot:star")
+	case x < 4:
+		bad := []string{"bytes " + st + "-" + off(499), "bytes -" + off(499) + "/" + off(1000), "bytes=" + st + "-" + off(499) + "/" + off(1000),
+			st + "-" + off(499) + "/" + off(1000), "bytes 18446744073709551616-18446744073709551700/18446744073709552000", ""}[r.Intn(6)]
+		if bad == "" {
+			bad = "none"
+		}
+		rest = append(rest, "cr:"+hx.HexS(bad))
+	}
+	return append(toks, rest...)
+}
+
 // genIntegrationSlow: proxy on a shaped listener, the shape's global bucket is
 // smaller than the throttle the response is in (or there is none): the body has
 // to wait for a drain and must still arrive complete.
@@ -520,6 +552,15 @@ func generate(cfg *hx.Config, emit func(kind string, in []string)) {
 	// 3. proxy on a shaped listener
 	for k := 0; k < ni; k++ {
 		emit("int", genIntegration(rng.Fork()))
+	}
+	// 3a. boundary magnitudes of the range start / offsets, through the proxy
+	nb := 20
+	if cfg.Thorough() {
+		nb = 200
+	}
+	for k := 0; k < nb; k++ {
+		emit("big", genIntegrationBig(rng.Fork(), k))
+		cfg.Count("integration-big-start")
 	}
 	// 3b. keep-alive connections with several responses
 	nk := 90
